@@ -107,7 +107,19 @@ void LabelHandle(tStrComp const* pName, LargeWord Value, Boolean ForceGlobal) {
             return;
         }
 
-        pLabelElement->Offset = Value;
+        /* the element belongs to the innermost NAMED structure: add the offsets of
+           the unnamed structures/unions in between, as for nested named ones */
+
+        {
+            PStructStack pRun;
+            LargeWord    Offset = Value;
+
+            for (pRun = StructStack; pRun && (pRun != pInnermostNamedStruct);
+                 pRun = pRun->Next) {
+                Offset += pRun->SaveCurrPC;
+            }
+            pLabelElement->Offset = Offset;
+        }
         if (AddStructElem(pInnermostNamedStruct->StructRec, pLabelElement)) {
             AddStructSymbol(pLabelElement->pElemName, Value);
         }
